@@ -42,6 +42,60 @@ use std::pin::Pin;
 use std::str::FromStr;
 use std::sync::{Arc, Mutex};
 
+//------------ a shiftable clock ------------------------------------------------
+//
+// The validator reads `SystemTime` (signature validity, remaining signature
+// lifetime) and `Instant` (node expiry).  The executable interposes libc's
+// `clock_gettime` (as the C15 / X01 / X02 harnesses do; this file is included
+// with #[path] by the C14 executables only, so the symbol is linked once):
+// both clocks run normally plus an offset that the harness advances between
+// two validations on one context ("TimePasses").
+
+static OFFSET_S: std::sync::atomic::AtomicI64 = std::sync::atomic::AtomicI64::new(0);
+
+#[repr(C)]
+pub struct Timespec {
+    tv_sec: i64,
+    tv_nsec: i64,
+}
+
+extern "C" {
+    fn syscall(num: i64, ...) -> i64;
+}
+
+/// Interposed libc symbol (x86_64 Linux): CLOCK_REALTIME (0) and
+/// CLOCK_MONOTONIC (1) are shifted by the same offset.
+#[no_mangle]
+pub unsafe extern "C" fn clock_gettime(clk: i32, ts: *mut Timespec) -> i32 {
+    let r = syscall(228, clk as i64, ts) as i32;
+    if r == 0 && (clk == 0 || clk == 1) {
+        (*ts).tv_sec += OFFSET_S.load(std::sync::atomic::Ordering::SeqCst);
+    }
+    r
+}
+
+pub fn advance_clock(secs: i64) {
+    OFFSET_S.fetch_add(secs, std::sync::atomic::Ordering::SeqCst);
+}
+
+/// Do both clocks of the standard library (and the library's Timestamp) follow?
+pub fn clock_selftest() -> bool {
+    let a = std::time::SystemTime::now();
+    let i = std::time::Instant::now();
+    let t = Timestamp::now().into_int();
+    advance_clock(100);
+    let ok = std::time::SystemTime::now().duration_since(a).map(|d| d.as_secs() >= 100 && d.as_secs() < 103).unwrap_or(false)
+        && i.elapsed().as_secs() >= 100 && i.elapsed().as_secs() < 103
+        && Timestamp::now().into_int().wrapping_sub(t) >= 100;
+    ok
+}
+
+/// start of the current scenario (for signatures with a short remaining life)
+static SCN_NOW: std::sync::atomic::AtomicU32 = std::sync::atomic::AtomicU32::new(0);
+/// short-lived signatures of the current scenario, so that a later run of the
+/// same scenario serves the very same octets
+static SHORT_SIGS: Mutex<Option<HashMap<String, Rec>>> = Mutex::new(None);
+
 pub type N = Name<Bytes>;
 pub type D = ZoneRecordData<Bytes, N>;
 pub type Rec = Record<N, D>;
@@ -75,6 +129,7 @@ pub struct Zone {
     pub parent: Option<&'static str>,
     pub signed: bool,
     pub key: Option<Key>,
+    pub keymat: Option<Arc<KeyMat>>,
     pub recs: Vec<Rec>,
     /// NSEC3 parameters when the zone uses NSEC3: (iterations, salt)
     pub nsec3: Option<(u16, Nsec3Salt<Bytes>)>,
@@ -99,9 +154,28 @@ fn dnskey_bytes(k: &Key) -> Dnskey<Bytes> {
 }
 
 fn new_key(owner: &N) -> Key {
+    new_key_mat(owner).0
+}
+
+pub type KeyMat = (domain::crypto::sign::SecretKeyBytes, Dnskey<Vec<u8>>);
+
+fn new_key_mat(owner: &N) -> (Key, Arc<KeyMat>) {
     let (sec, pubk) = generate(&GenerateParams::EcdsaP256Sha256, 257).expect("generate");
     let kp = KeyPair::from_bytes(&sec, &pubk).expect("keypair");
+    (SigningKey::new(owner.clone(), 257, kp), Arc::new((sec, pubk)))
+}
+
+fn key_from_mat(owner: &N, m: &KeyMat) -> Key {
+    let kp = KeyPair::from_bytes(&m.0, &m.1).expect("keypair");
     SigningKey::new(owner.clone(), 257, kp)
+}
+
+/// parameters of one world build: time, NSEC3 salt, and (for a re-salted copy
+/// of a world) the key material to reuse per zone
+pub struct BuildCtx<'a> {
+    pub now: u32,
+    pub salt: &'static [u8],
+    pub keys: Option<&'a HashMap<String, Arc<KeyMat>>>,
 }
 
 /// A fresh key whose DNSKEY flags are chosen such that its key tag is `want`
@@ -155,8 +229,9 @@ impl Zone {
         signed: bool,
         denial: Denial,
         content: Vec<Rec>,
-        now: u32,
+        bc: &BuildCtx<'_>,
     ) -> Zone {
+        let now = bc.now;
         let mut records: SortedRecords<N, D> = SortedRecords::default();
         let ns = sub("ns", &apex);
         let soa = Soa::new(
@@ -175,9 +250,14 @@ impl Zone {
             let _ = records.insert(r);
         }
         let mut key = None;
+        let mut keymat = None;
         let mut nsec3 = None;
         if signed {
-            let k = new_key(&apex);
+            let (k, km) = match bc.keys.and_then(|m| m.get(id)) {
+                Some(m) => (key_from_mat(&apex, m), m.clone()),
+                None => new_key_mat(&apex),
+            };
+            keymat = Some(km);
             let dk = rec(&apex, D::Dnskey(dnskey_bytes(&k)));
             let _ = records.insert(dk.clone());
             let inc = now.wrapping_sub(3600);
@@ -185,7 +265,7 @@ impl Zone {
             let den: DenialConfig<Bytes, DefaultSorter> = match denial {
                 Denial::Nsec => DenialConfig::Nsec(GenerateNsecConfig::new()),
                 Denial::Nsec3 | Denial::OptOut => {
-                    let salt = Nsec3Salt::from_octets(Bytes::from_static(b"\xab\xcd")).unwrap();
+                    let salt = Nsec3Salt::from_octets(Bytes::from_static(bc.salt)).unwrap();
                     let params = Nsec3param::new(Nsec3HashAlgorithm::SHA1, 0, 1, salt.clone());
                     nsec3 = Some((1u16, salt));
                     let cfg = GenerateNsec3Config::<Bytes, DefaultSorter>::new(params);
@@ -199,7 +279,7 @@ impl Zone {
             let _ = records.insert(sig);
             key = Some(k);
         }
-        Zone { id, apex, parent, signed, key, recs: records.into_inner(), nsec3 }
+        Zone { id, apex, parent, signed, key, keymat, recs: records.into_inner(), nsec3 }
     }
 
     pub fn rrset(&self, name: &N, rt: Rtype) -> Vec<Rec> {
@@ -455,9 +535,9 @@ impl Resp {
 
 pub struct World {
     /// the attacker's key per zone (key tag tuned to the genuine key's)
-    pub adv_keys: Mutex<HashMap<String, Arc<Key>>>,
+    pub adv_keys: Arc<Mutex<HashMap<String, Arc<Key>>>>,
     /// the zone's own second key with a colliding tag (not the attacker's)
-    pub coll_keys: Mutex<HashMap<String, Arc<Key>>>,
+    pub coll_keys: Arc<Mutex<HashMap<String, Arc<Key>>>>,
     pub zones: Vec<Zone>,
     pub leaf: &'static str,
     pub now: u32,
@@ -541,7 +621,32 @@ fn deleg(child: &N, key: Option<&Key>) -> Vec<Rec> {
 
 impl World {
     pub fn build(shape: Shape, denial: Denial) -> World {
+        World::build_with(shape, denial, b"\xab\xcd", None)
+    }
+
+    /// the same hierarchy (same keys, hence same trust anchor and DS records)
+    /// with the zones' NSEC3 chains re-salted
+    pub fn resalted(&self, shape: Shape, denial: Denial) -> World {
+        let keys: HashMap<String, Arc<KeyMat>> = self
+            .zones
+            .iter()
+            .filter_map(|z| z.keymat.as_ref().map(|k| (z.id.to_string(), k.clone())))
+            .collect();
+        let mut w = World::build_with(shape, denial, b"\x5a\x5a\x01", Some(&keys));
+        w.adv_keys = self.adv_keys.clone();
+        w.coll_keys = self.coll_keys.clone();
+        w
+    }
+
+    pub fn build_with(
+        shape: Shape,
+        denial: Denial,
+        salt: &'static [u8],
+        keys: Option<&HashMap<String, Arc<KeyMat>>>,
+    ) -> World {
         let now = Timestamp::now().into_int();
+        let bc = BuildCtx { now, salt, keys };
+        let now = &bc;
         let four = matches!(shape, Shape::Secure4 | Shape::InsecureLeaf4);
         let leaf_secure =
             matches!(shape, Shape::Secure3 | Shape::Secure4 | Shape::EntApexS | Shape::EntNameS);
@@ -596,7 +701,7 @@ impl World {
         }
         zones.push(z_other);
         zones.push(z_plain);
-        World { adv_keys: Mutex::new(HashMap::new()), coll_keys: Mutex::new(HashMap::new()), zones, leaf: leaf_id, now, anchor }
+        World { adv_keys: Arc::new(Mutex::new(HashMap::new())), coll_keys: Arc::new(Mutex::new(HashMap::new())), zones, leaf: leaf_id, now: bc.now, anchor }
     }
 
     pub fn adv_key(&self, z: &Zone) -> Arc<Key> {
@@ -965,6 +1070,23 @@ pub fn apply(w: &World, resp: &mut Resp, st: &AdvStep) {
                 }
             }
         }
+        "ShortSig" => {
+            // an honest signature with only a few seconds of validity left
+            // (the same octets whenever it is served again in this scenario)
+            if let Some(i) = idx {
+                if let Some(z) = signer_zone(w, &resp.sets[i]) {
+                    let key = format!("{}:{}:{}", st.t, st.z, st.role);
+                    let mut g = SHORT_SIGS.lock().unwrap();
+                    let m = g.get_or_insert_with(HashMap::new);
+                    let now0 = SCN_NOW.load(std::sync::atomic::Ordering::SeqCst);
+                    let sig = m
+                        .entry(key)
+                        .or_insert_with(|| sign_set(z.key.as_ref().unwrap(), &resp.sets[i].recs, now0 - 3600, now0 + 4))
+                        .clone();
+                    resp.sets[i].sigs = vec![sig];
+                }
+            }
+        }
         "SerialInception" => {
             // RFC 4034 3.1.5 / RFC 1982: inception just below 2^32 is "in the
             // past" in serial-number arithmetic
@@ -1179,7 +1301,11 @@ pub fn apply(w: &World, resp: &mut Resp, st: &AdvStep) {
 //------------ Mock upstream --------------------------------------------------
 
 pub struct Mock {
-    pub world: Arc<World>,
+    /// the world and its re-salted twin; `sel` says which one answers now
+    pub world: (Arc<World>, Arc<World>),
+    pub sel: Arc<std::sync::atomic::AtomicUsize>,
+    /// set the AD bit in the upstream's answers (a validator must not relay it)
+    pub upstream_ad: bool,
     /// the adversary's plan for the current validation run (switchable: one
     /// ValidationContext may validate several answers in a row)
     pub plan: Arc<Mutex<Vec<AdvStep>>>,
@@ -1193,6 +1319,8 @@ impl Clone for Mock {
     fn clone(&self) -> Self {
         Mock {
             world: self.world.clone(),
+            sel: self.sel.clone(),
+            upstream_ad: self.upstream_ad,
             plan: self.plan.clone(),
             user: self.user,
             log: self.log.clone(),
@@ -1202,17 +1330,21 @@ impl Clone for Mock {
 }
 
 impl Mock {
+    pub fn w(&self) -> &Arc<World> {
+        if self.sel.load(std::sync::atomic::Ordering::SeqCst) == 0 { &self.world.0 } else { &self.world.1 }
+    }
+
     pub fn respond(&self, qname: &N, qtype: Rtype) -> Message<Bytes> {
-        let mut resp = self.world.answer(qname, qtype);
+        let mut resp = self.w().answer(qname, qtype);
         let plan = self.plan.lock().unwrap().clone();
         for st in &plan {
             let hit = if self.user {
                 st.t == "ANS"
             } else {
-                st.t == format!("{}", qtype) && self.world.zone(&st.z).apex == *qname
+                st.t == format!("{}", qtype) && self.w().zone(&st.z).apex == *qname
             };
             if hit {
-                apply(&self.world, &mut resp, st);
+                apply(&self.w(), &mut resp, st);
             }
         }
         if std::env::var("VERIF_DEBUG").is_ok() {
@@ -1223,11 +1355,17 @@ impl Mock {
                 }
             }
         }
-        resp.to_message(qname, qtype)
+        let m = resp.to_message(qname, qtype);
+        if self.upstream_ad {
+            let mut v = m.as_slice().to_vec();
+            v[3] |= 0x20;
+            return Message::from_octets(Bytes::from(v)).unwrap();
+        }
+        m
     }
 
     fn label(&self, qname: &N) -> String {
-        match self.world.zone_by_apex(qname) {
+        match self.w().zone_by_apex(qname) {
             Some(z) => z.id.to_string(),
             None => "name".to_string(),
         }
@@ -1290,14 +1428,31 @@ impl SetId for Message<Bytes> {
 
 //------------ Scenario runner -------------------------------------------------
 
-pub struct Worlds(HashMap<(Shape, Denial), Arc<World>>);
+pub struct Worlds(HashMap<(Shape, Denial), (Arc<World>, Arc<World>)>);
 
 impl Worlds {
     pub fn new() -> Self {
         Worlds(HashMap::new())
     }
+    /// the world and its re-salted twin; rebuilt when the (shifted) clock has
+    /// moved more than six hours past the build time
+    pub fn pair(&mut self, s: Shape, d: Denial) -> (Arc<World>, Arc<World>) {
+        let now = Timestamp::now().into_int();
+        let stale = self.0.get(&(s, d)).map(|p| now.wrapping_sub(p.0.now) > 6 * 3600).unwrap_or(false);
+        if stale {
+            self.0.remove(&(s, d));
+        }
+        self.0
+            .entry((s, d))
+            .or_insert_with(|| {
+                let a = World::build(s, d);
+                let b = a.resalted(s, d);
+                (Arc::new(a), Arc::new(b))
+            })
+            .clone()
+    }
     pub fn get(&mut self, s: Shape, d: Denial) -> Arc<World> {
-        self.0.entry((s, d)).or_insert_with(|| Arc::new(World::build(s, d))).clone()
+        self.pair(s, d).0
     }
 }
 
@@ -1353,29 +1508,36 @@ pub struct Outcome {
 }
 
 /// Run one scenario against the real validator.
+///
+/// `runs` (optional): several validations of the same question on ONE
+/// ValidationContext, each with its own adversary plan; `tps[i]` / `rss[i]`:
+/// before run i time passes (10 s on both clocks) / the zones are re-salted.
 pub fn run_scenario(worlds: &mut Worlds, input: &Value, with_conn: bool) -> Outcome {
     let shape = parse_shape(input["shape"].as_str().unwrap_or(""));
     let denial = parse_denial(input["denial"].as_str().unwrap_or(""));
     let qk = input["qk"].as_str().unwrap_or("").to_string();
     let plan = parse_adv(&input["adv"]);
-    let w = worlds.get(shape, denial);
+    let pair = worlds.pair(shape, denial);
+    let w = pair.0.clone();
     NOOP_REWRITE.store(false, std::sync::atomic::Ordering::SeqCst);
+    SCN_NOW.store(Timestamp::now().into_int(), std::sync::atomic::Ordering::SeqCst);
+    *SHORT_SIGS.lock().unwrap() = None;
     let (qname, qtype) = question(&w, &qk, &plan);
     let log = Arc::new(Mutex::new(Vec::new()));
-    // "runs": several validations of the same question on ONE context, each
-    // with its own adversary plan (caches persist); otherwise a single run
     let plans: Vec<Vec<AdvStep>> = match input["runs"].as_array() {
         Some(r) => r.iter().map(parse_adv).collect(),
         None => vec![plan.clone()],
     };
+    let flag = |k: &str, i: usize| input[k].as_array().and_then(|a| a.get(i)).and_then(|v| v.as_bool()).unwrap_or(false);
     let cur = Arc::new(Mutex::new(Vec::new()));
-    let infra = Mock { world: w.clone(), plan: cur.clone(), user: false, log: log.clone(), budget: 60 * plans.len() };
+    let sel = Arc::new(std::sync::atomic::AtomicUsize::new(0));
+    let infra = Mock {
+        world: pair.clone(), sel: sel.clone(), upstream_ad: false,
+        plan: cur.clone(), user: false, log: log.clone(), budget: 60 * plans.len(),
+    };
     let user = Mock {
-        world: w.clone(),
-        plan: cur.clone(),
-        user: true,
-        log: Arc::new(Mutex::new(Vec::new())),
-        budget: 60,
+        world: pair.clone(), sel: sel.clone(), upstream_ad: false,
+        plan: cur.clone(), user: true, log: Arc::new(Mutex::new(Vec::new())), budget: 60,
     };
     let rt = tokio::runtime::Builder::new_current_thread().enable_time().build().expect("rt");
     let res = std::panic::catch_unwind(std::panic::AssertUnwindSafe(|| {
@@ -1383,7 +1545,13 @@ pub fn run_scenario(worlds: &mut Worlds, input: &Value, with_conn: bool) -> Outc
             let ta = TrustAnchors::from_u8(w.anchor.as_bytes()).expect("anchor");
             let vc = ValidationContext::new(ta, infra.clone());
             let mut last = json!({"state": "none"});
-            for pl in &plans {
+            for (i, pl) in plans.iter().enumerate() {
+                if flag("tps", i) {
+                    advance_clock(10);
+                }
+                if flag("rss", i) {
+                    sel.fetch_xor(1, std::sync::atomic::Ordering::SeqCst);
+                }
                 *cur.lock().unwrap() = pl.clone();
                 let mut msg = user.respond(&qname, qtype);
                 let r = tokio::time::timeout(
@@ -1413,20 +1581,32 @@ pub fn run_scenario(worlds: &mut Worlds, input: &Value, with_conn: bool) -> Outc
     }
     let mut conn = None;
     if with_conn && plans.len() == 1 {
-        conn = Some(run_conn(&w, &plan, &qname, qtype));
+        conn = Some(run_conn(&pair, &plan, &qname, qtype, false, false, true));
     }
     let noop = NOOP_REWRITE.load(std::sync::atomic::Ordering::SeqCst);
     Outcome { noop, obs, fetches, conn }
 }
 
-/// The same scenario through net::client::validator::Connection: AD bit /
-/// SERVFAIL as seen by the application.
-pub fn run_conn(w: &Arc<World>, plan: &[AdvStep], qname: &N, qtype: Rtype) -> Value {
+/// The same scenario through net::client::validator::Connection with the
+/// request flags CD / AD / DO: what the application sees - SERVFAIL?, the AD
+/// bit, and whether DNSSEC records (RRSIG/NSEC/NSEC3) are still present.  The
+/// upstream answers with the AD bit set.
+pub fn run_conn(
+    pair: &(Arc<World>, Arc<World>),
+    plan: &[AdvStep],
+    qname: &N,
+    qtype: Rtype,
+    cd: bool,
+    ad: bool,
+    dnssec_ok: bool,
+) -> Value {
     use domain::net::client::validator::Connection;
+    let w = pair.0.clone();
     let log = Arc::new(Mutex::new(Vec::new()));
     let cur = Arc::new(Mutex::new(plan.to_vec()));
-    let infra = Mock { world: w.clone(), plan: cur.clone(), user: false, log: log.clone(), budget: 60 };
-    let user = Mock { world: w.clone(), plan: cur.clone(), user: true, log: log.clone(), budget: 60 };
+    let sel = Arc::new(std::sync::atomic::AtomicUsize::new(0));
+    let infra = Mock { world: pair.clone(), sel: sel.clone(), upstream_ad: true, plan: cur.clone(), user: false, log: log.clone(), budget: 60 };
+    let user = Mock { world: pair.clone(), sel: sel.clone(), upstream_ad: true, plan: cur.clone(), user: true, log: log.clone(), budget: 60 };
     let rt = tokio::runtime::Builder::new_current_thread().enable_time().build().expect("rt");
     let res = std::panic::catch_unwind(std::panic::AssertUnwindSafe(|| {
         rt.block_on(async {
@@ -1435,22 +1615,31 @@ pub fn run_conn(w: &Arc<World>, plan: &[AdvStep], qname: &N, qtype: Rtype) -> Va
             let conn: Connection<Mock, Vec<u8>, Mock> = Connection::new(user.clone(), vc);
             let mut mb = MessageBuilder::new_vec();
             mb.header_mut().set_rd(true);
+            mb.header_mut().set_cd(cd);
+            mb.header_mut().set_ad(ad);
             let mut q = mb.question();
             q.push((qname, qtype)).unwrap();
             let mut req = RequestMessage::new(q.into_message()).expect("req");
-            req.set_dnssec_ok(true);
+            if dnssec_ok {
+                req.set_dnssec_ok(true);
+            }
             let mut r = SendRequest::send_request(&conn, req);
             match tokio::time::timeout(std::time::Duration::from_secs(10), r.get_response()).await {
                 Err(_) => json!({"hang": true}),
                 Ok(Err(e)) => json!({"error": format!("{}", e)}),
                 Ok(Ok(m)) => {
-                    if m.header().rcode() == Rcode::SERVFAIL {
-                        json!("SERVFAIL")
-                    } else if m.header().ad() {
-                        json!("AD")
-                    } else {
-                        json!("noAD")
+                    let mut dnssec = false;
+                    for sec in [m.answer(), m.authority()] {
+                        if let Ok(sec) = sec {
+                            for rr in sec.flatten() {
+                                if matches!(rr.rtype(), Rtype::RRSIG | Rtype::NSEC | Rtype::NSEC3) && rr.rtype() != qtype {
+                                    dnssec = true;
+                                }
+                            }
+                        }
                     }
+                    json!({"servfail": m.header().rcode() == Rcode::SERVFAIL,
+                           "ad": m.header().ad(), "dnssec": dnssec})
                 }
             }
         })
@@ -1458,14 +1647,17 @@ pub fn run_conn(w: &Arc<World>, plan: &[AdvStep], qname: &N, qtype: Rtype) -> Va
     res.unwrap_or_else(|_| json!({"panic": true}))
 }
 
-/// what the Connection must show for a validation state
-pub fn conn_for_state(obs: &Value) -> Value {
-    match obs.get("state").and_then(|s| s.as_str()) {
-        Some("Secure") => json!("AD"),
-        Some("Bogus") => json!("SERVFAIL"),
-        Some(_) => json!("noAD"),
-        None => obs.clone(),
+/// the 8 request flag combinations
+pub fn conn_matrix(pair: &(Arc<World>, Arc<World>), plan: &[AdvStep], qname: &N, qtype: Rtype) -> Vec<(bool, bool, bool, Value)> {
+    let mut v = Vec::new();
+    for cd in [false, true] {
+        for ad in [false, true] {
+            for d in [false, true] {
+                v.push((cd, ad, d, run_conn(pair, plan, qname, qtype, cd, ad, d)));
+            }
+        }
     }
+    v
 }
 
 pub fn unused(_: &Label) {}
